@@ -71,6 +71,21 @@ func sameRoute(a, b *m.RoutingTableEntry) bool {
 		reflect.DeepEqual(hopsOf(a), hopsOf(b))
 }
 
+// sameRouteExactly also compares what every hop carries (delay, labels): "the route is now
+// present" means the route that was handed in, not an older one over the same routers.
+func sameRouteExactly(a, b *m.RoutingTableEntry) bool {
+	if !sameRoute(a, b) || len(a.Path.Hops) != len(b.Path.Hops) {
+		return false
+	}
+	for i := range a.Path.Hops {
+		x, y := a.Path.Hops[i], b.Path.Hops[i]
+		if x.Router != y.Router || x.Delay != y.Delay || x.ForwardLabel != y.ForwardLabel || x.ReturnLabel != y.ReturnLabel {
+			return false
+		}
+	}
+	return true
+}
+
 func containsRouter(e *m.RoutingTableEntry, r netip.Addr) bool {
 	if e.DstIP == r || e.NextHop == r {
 		return true
@@ -399,6 +414,36 @@ func run(e *core.Env) {
 				}
 				entry = m.RoutingTableEntry{DstIP: dst, NextHop: nh, Source: m.RouteSourceGossip, Stub: tp.Chance(1, 6)}
 				entry.Path = w.genPath(dst, nh)
+				if tp.Chance(1, 5) {
+					// the next announcement over a path the table already holds: same routers, but
+					// links were re-established (new labels) and the delays shifted between hops
+					// while their sum stayed the same
+					var have []m.RoutingTableEntry
+					for _, en := range before {
+						if en.Source == m.RouteSourceGossip && len(en.Path.Hops) >= 3 {
+							have = append(have, en)
+						}
+					}
+					if len(have) > 0 {
+						old := have[tp.Intn(len(have))]
+						entry.DstIP, entry.NextHop = old.DstIP, old.NextHop
+						hops := append([]m.SwitchHop(nil), old.Path.Hops...)
+						i, j := tp.Intn(len(hops)-1), tp.Intn(len(hops)-1)
+						if d := uint16(tp.Intn(int(hops[i].Delay) + 1)); i != j && hops[j].Delay <= 65535-d {
+							hops[i].Delay -= d
+							hops[j].Delay += d
+						}
+						k := tp.Intn(len(hops))
+						if hops[k].ForwardLabel != 0 {
+							hops[k].ForwardLabel = hops[k].ForwardLabel%127 + 1
+						}
+						if hops[k].ReturnLabel != 0 {
+							hops[k].ReturnLabel = hops[k].ReturnLabel%127 + 1
+						}
+						entry.Path = m.SwitchPath{Hops: hops}
+						e.Probe("known_path_announced_again_with_other_labels")
+					}
+				}
 				entry.Path.CalculateTotals()
 				switch tp.Intn(6) {
 				case 0:
@@ -422,7 +467,7 @@ func run(e *core.Env) {
 			if added {
 				found := false
 				for i := range after {
-					if sameRoute(&after[i], &entry) {
+					if sameRouteExactly(&after[i], &entry) {
 						found = true
 					}
 				}
